@@ -398,7 +398,7 @@ func init() {
 				}(c)
 			}
 		}()
-		s.obs("hremote %s", runChild("rview", "http://"+l.Addr().String(), a.str("kind", "view"), fmt.Sprint(len(body))))
+		s.obs("hremote %s", runChild("rview", "http://"+l.Addr().String(), a.str("kind", "view"), fmt.Sprint(len(body)), a.str("archive", "-1")))
 	})
 }
 
@@ -444,4 +444,109 @@ func init() {
 		}
 		s.obs("wfetchtick %s", verdict)
 	})
+}
+
+func init() {
+	// syncclosed F: Close, then Sync on the same handle.  A closed handle can write nothing any more: Sync says so.
+	register("syncclosed", func(s *sess, tk []string) {
+		f := s.file(tk[1])
+		if f.db == nil {
+			s.obs("syncclosed nofile")
+			return
+		}
+		f.db.Close()
+		err := f.db.Sync()
+		f.db = nil
+		if err != nil {
+			s.obs("syncclosed err")
+		} else {
+			s.obs("syncclosed ok")
+		}
+	})
+}
+
+func init() {
+	// dirlink TARGET LINK: a directory TARGET and a symbolic link LINK to it (both in the case directory)
+	register("dirlink", func(s *sess, tk []string) {
+		must(os.MkdirAll(filepath.Join(s.dir, tk[1]), 0755))
+		must(os.Symlink(tk[1], filepath.Join(s.dir, tk[2])))
+		s.obs("dirlink ok")
+	})
+}
+
+func init() {
+	// rawduring F now: a raw view (the view-raw command on the directory) started in the middle of a writer's
+	// session -- after its first update was synced, before its second one.  Like every reader it sees the file
+	// as of a session boundary: both updates (it waited for the writer to close) or none, never one of them.
+	register("rawduring", func(s *sess, tk []string) {
+		f := s.file(tk[1])
+		s.closeAll()
+		now := wt.Timestamp(atoi(tk[2]))
+		a, err := wt.Open(f.path)
+		if err != nil {
+			s.obs("rawduring openerr")
+			return
+		}
+		must(a.UpdatePointForArchive(0, now.Add(-1), wt.Value(111111), now))
+		must(a.Sync())
+		done := make(chan string, 1)
+		go func() {
+			out := filepath.Join(s.dir, "rawduring.txt")
+			os.Remove(out)
+			c := &cmd.ViewRawCommand{SrcBase: filepath.Dir(f.path), SrcRelPath: filepath.Base(f.path), ArchiveID: 0, SortsByTime: true, TextOut: out}
+			if err := c.Execute(); err != nil {
+				done <- "err"
+				return
+			}
+			b, _ := os.ReadFile(out)
+			hasA, hasB := strings.Contains(string(b), "val:111111"), strings.Contains(string(b), "val:222222")
+			switch {
+			case hasA && hasB:
+				done <- "both"
+			case hasA:
+				done <- "first-only"
+			case hasB:
+				done <- "second-only"
+			default:
+				done <- "none"
+			}
+		}()
+		time.Sleep(250 * time.Millisecond)
+		must(a.UpdatePointForArchive(0, now.Add(-3), wt.Value(222222), now))
+		must(a.Sync())
+		a.Close()
+		res := "hang"
+		select {
+		case res = <-done:
+		case <-time.After(20 * time.Second):
+		}
+		if res == "both" || res == "none" {
+			res = "boundary"
+		}
+		s.obs("rawduring %s", res)
+	})
+}
+
+func init() {
+	// cligensize dest=NAME layout=.. m= x=: generate without fill; the length of the file it leaves (the file is
+	// sparse and removed afterwards): for archives of any size the file is as long as its header says
+	handlers["cligensize"] = func(s *sess, tk []string) {
+		a := parseKV(tk[1:])
+		s.closeAll()
+		dest := filepath.Join(s.dir, a["dest"])
+		must(os.MkdirAll(filepath.Dir(dest), 0755))
+		c := &cmd.GenerateCommand{Dest: dest, Perm: 0644, AggregationMethod: wt.AggregationMethod(a.num("m", 2)),
+			XFilesFactor: math.Float32frombits(uint32(hex64(a.str("x", "3f000000")))), ArchiveInfoList: layoutFromCSV(a["layout"]), RandMax: 10, Fill: false, TextOut: ""}
+		err, panicked := runCmd(c.Execute)
+		s.echo(strings.Join(tk, " "))
+		st := statusOf(err, panicked)
+		if st != "ok" {
+			s.obs("cligensize %s", st)
+		} else if fi, err := os.Stat(dest); err != nil {
+			s.obs("cligensize nofile")
+		} else {
+			s.obs("cligensize ok size=%d", fi.Size())
+		}
+		os.Remove(dest)
+	}
 }
